@@ -8,7 +8,8 @@ AST (tuples):
   cond  := ("cmp", op, term, term) | ("contains", container_term, item_term) | ("truth", term) | ("hastype", term, cls)
          | ("and", c, c) | ("or", c, c) | ("not", c) | ("exists", name, c) | ("forall", name, c)
   query := {"sel": [term], "cond": cond|None, "objs": [ObjSpec], "doms": {name: [value]}, "kinds": {name: kind}}
-values: int | bool | list[int] | ("obj", index) | ("objs", [index]) | None
+values: int | bool | list[int] | ("obj", index) | ("objs", [index]) | None | ("set", sorted tuple of ints) (a frozenset:
+        ordered by inclusion, a partial order)
 objects: {"cls": int, "veq": bool, "fields": {name: value}}; a zero-argument method m is the field "m_<m>"
 """
 from __future__ import annotations
@@ -52,6 +53,8 @@ def sx_val(v) -> str:
         return f"(obj {v[1]})"
     if isinstance(v, tuple) and v[0] == "objs":
         return "(objs" + "".join(f" {x}" for x in v[1]) + ")"
+    if isinstance(v, tuple) and v[0] == "set":
+        return "(set" + "".join(f" {x}" for x in v[1]) + ")"
     if isinstance(v, bool):
         return f"(bool {'T' if v else 'F'})"
     if isinstance(v, int):
@@ -171,6 +174,8 @@ def _p_val(s):
         return ("objs", [int(x) for x in s[1:]])
     if s[0] == "none":
         return None
+    if s[0] == "set":
+        return ("set", tuple(int(x) for x in s[1:]))
     raise ValueError(s)
 
 
@@ -252,6 +257,8 @@ def real_val(v, objs):
         return objs[v[1]]
     if isinstance(v, tuple) and v[0] == "objs":
         return [objs[i] for i in v[1]]
+    if isinstance(v, tuple) and v[0] == "set":
+        return frozenset(v[1])
     if isinstance(v, list):
         return list(v)
     return v
@@ -274,6 +281,10 @@ def show_val(v) -> str:
         return str(v)
     if isinstance(v, tuple) and v[0] == "objs":
         return "[" + ",".join(f"o{i}" for i in v[1]) + "]"
+    if isinstance(v, tuple) and v[0] == "set":
+        return "{" + ",".join(str(i) for i in v[1]) + "}"
+    if isinstance(v, frozenset):
+        return "{" + ",".join(str(i) for i in sorted(v)) + "}"
     if isinstance(v, list):
         return "[" + ",".join(show_val(x) for x in v) + "]"
     if v is None:
@@ -539,11 +550,15 @@ def gen_world(rnd, vs: List[str], falsy: bool = True, veq_p: float = 0.25, int_p
     nobj = rnd.randrange(0, max_objs + 1)
     lo = 0 if falsy else 1
     use_veq = rnd.random() < veq_p
+    use_sets = EXT["sets"] = rnd.random() < 0.2
     def mk():
         a = rnd.randrange(lo, 3 + lo)
-        return {"cls": 0, "veq": use_veq,
-                "fields": {"a": a, "f": rnd.random() < 0.5,
-                           "items": [rnd.randrange(lo, 3 + lo) for _ in range(rnd.randrange(0, 3))], "m_dbl": 2 * a}}
+        o = {"cls": 0, "veq": use_veq,
+             "fields": {"a": a, "f": rnd.random() < 0.5,
+                        "items": [rnd.randrange(lo, 3 + lo) for _ in range(rnd.randrange(0, 3))], "m_dbl": 2 * a}}
+        if use_sets:  # a frozenset-valued attribute: values that are only partially ordered
+            o["fields"]["s"] = gen_set(rnd, lo)
+        return o
     objs = [mk() for _ in range(nobj)]
     if objs and rnd.random() < 0.3:  # value-equal but distinct objects
         o = rnd.choice(objs)
@@ -554,7 +569,9 @@ def gen_world(rnd, vs: List[str], falsy: bool = True, veq_p: float = 0.25, int_p
         if kinds[n] == "obj":
             doms[n] = [("obj", i) for i in range(len(objs)) if rnd.random() < 0.8]
         else:
-            doms[n] = sorted(rnd.sample(range(lo, 4 + lo), rnd.randrange(0, 4)))
+            # negative values too: distinct ints whose CPython hashes collide (hash(-1) == hash(-2))
+            pool = list(range(lo, 4 + lo)) + ([-1, -2] if rnd.random() < 0.3 else [])
+            doms[n] = sorted(rnd.sample(pool, rnd.randrange(0, 4)))
     return kinds, objs, doms
 
 
@@ -570,12 +587,30 @@ def num_term(rnd, vs, kinds, lo=0):
     return ("attr", ("var", v), "a")
 
 
-EXT = {"flatten": True, "index_ok": False}
+EXT = {"flatten": True, "index_ok": False, "sets": False}
+
+
+def gen_set(rnd, lo=0):
+    return ("set", tuple(sorted(rnd.sample(range(lo, 3 + lo), rnd.randrange(lo and 1, 3)))))
+
+
+def set_atom(rnd, objs, vs, kinds, lo, v=None):
+    v = v or rnd.choice(objs)
+    l = ("attr", ("var", v), "s")
+    k = rnd.random()
+    if k < 0.7:
+        r = ("attr", ("var", rnd.choice(objs)), "s") if rnd.random() < 0.6 else ("lit", gen_set(rnd, lo))
+        return ("cmp", rnd.choice(list(OPS)), l, r) if rnd.random() < 0.7 else ("cmp", rnd.choice(list(OPS)), r, l)
+    if k < 0.85:
+        return ("contains", l, num_term(rnd, vs, kinds, lo))
+    return ("truth", l)
 
 
 def gen_atom(rnd, vs, kinds, lo=0, must: Optional[str] = None):
     objs = [v for v in vs if kinds[v] == "obj"]
     k = rnd.random()
+    if objs and EXT["sets"] and (must is None or kinds[must] == "obj") and rnd.random() < 0.3:
+        return set_atom(rnd, objs, vs, kinds, lo, must)
     if must is None and objs and EXT["flatten"] and rnd.random() < 0.08:
         fl = ("flatten", ("attr", ("var", rnd.choice(objs)), "items"))
         if rnd.random() < 0.5:
